@@ -84,12 +84,40 @@ private:
         uint8_t curVersion{0};
         CmpHeader::MessageType curMessageType{0};
         uint16_t curSegment{0};
+
+#ifdef ASAM_CMP_VERIF
+    public:
+        // Verification hook (read-only): bytes currently buffered for this reassembly
+        std::size_t verifBufferedBytes() const
+        {
+            return payload.size();
+        }
+#endif
     };
 
     using SegmentedPackets = std::unordered_map<Endpoint, SegmentedPacket, EndpointHash>;
 
 private:
     SegmentedPackets segmentedPackets;
+
+#ifdef ASAM_CMP_VERIF
+public:
+    // Verification hook (read-only): the endpoints that currently hold reassembly state
+    struct VerifPending
+    {
+        uint16_t deviceId;
+        uint8_t streamId;
+        std::size_t bufferedBytes;
+    };
+
+    std::vector<VerifPending> verifPendingReassemblies() const
+    {
+        std::vector<VerifPending> pending;
+        for (const auto& entry : segmentedPackets)
+            pending.push_back({entry.first.deviceId, entry.first.streamId, entry.second.verifBufferedBytes()});
+        return pending;
+    }
+#endif
 };
 
 END_NAMESPACE_ASAM_CMP
